@@ -14,7 +14,7 @@ use serde_json::{json, Value};
 pub const META: Meta = Meta {
     id: "C03",
     level: "exploration",
-    rule: "Cases are (entity length L, Range header value) pairs: (a) every set of 1-2 specs (1-3 for L<=4) over all three spec forms with positions 0..=L+2 for L in 1..=8 [exhaustive]; (b) the boundary product L x positions from {0,1,L-1,L,L+1,2^32,2^63,2^64-2,2^64-1,2^64,10^25}, 1-2 specs exhaustive and 3 specs sampled; (c) proptest threshold sets aimed at the multipart/200 decision; (d) near-miss and garbage headers. Oracle: independent u128 resolver returning the set of outcomes the statement allows. Non-trivial = grammatical header whose resolution clamps, uses a suffix, drops a spec or yields several ranges, or a non-grammatical header; distinct by fingerprint of (L, header).",
+    rule: "Cases are (entity length L, Range header value) pairs: (a) every set of 1-2 specs (1-3 for L<=4) over all three spec forms with positions 0..=L+2 for L in 1..=8 [exhaustive]; (b) the boundary product L x positions from {0,1,L-1,L,L+1,2^32,2^63,2^64-2,2^64-1,2^64,10^25}, 1-2 specs exhaustive and 3 specs sampled; (c) proptest threshold sets aimed at the multipart/200 decision; (d) near-miss and garbage headers; (e) zero-padded spellings (widths up to 26) of every boundary position. Oracle: independent u128 resolver returning the set of outcomes the statement allows. Non-trivial = grammatical header whose resolution clamps, uses a suffix, drops a spec or yields several ranges, or a non-grammatical header; distinct by fingerprint of (L, header).",
     assumptions: &[
         "harness entity honours the Entity contract (exact bytes, fused streams)",
         "lenient-but-RFC-grammatical forms (OWS before commas, empty list elements, unit in another case, last<first) may be either ignored or resolved; both are accepted; numbers of 2^64 and beyond make the header unparseable (200); zero-padded numbers that fit u64 are grammatical and must be resolved",
